@@ -21,7 +21,7 @@ impl Prop for C10 {
     fn rule(&self) -> String {
         "for encrypt_chunks / decrypt_chunks on hook-sized streams (cs in {1,2,3}, 0..3 chunks, several read partitions and write-accept schedules) and for the four public entry points on 0..2-chunk inputs: \
          the fault-free run is recorded first, then for every k from 0 to (number of read / write / flush calls of that run) the k-th call of that kind fails with Err(Other), Err(Interrupted) or (writes) Ok(0); \
-         plus seeded multi-fault scripts. compared with the model: result class; oracle on the implementation: no panic, error names the failing side, success only if the fault was a retried interruption and then output = fault-free output, \
+         plus seeded multi-fault scripts; and the real binary writing with -o /dev/full (every write fails with ENOSPC) for all five output-producing commands: exit 1 with an Error: line. compared with the model: result class; oracle on the implementation: no panic, error names the failing side, success only if the fault was a retried interruption and then output = fault-free output, \
          output always a prefix of the fault-free output. non-trivial = distinct (operation, shape, schedule, fault side, kind, k)".into()
     }
     fn cases(&self, tier: &str, seed: u64) -> Vec<Case> {
@@ -50,6 +50,8 @@ impl Prop for C10 {
                 }
             }
         }
+        for cmd in ["encrypt", "decrypt", "pass-encrypt", "pass-decrypt", "key-generate"] { for plen in [100usize, 70000] { if cmd == "key-generate" && plen > 100 { continue; }
+            v.push(case(&[("op", "cli-devfull".into()), ("cmd", cmd.into()), ("plen", plen.to_string()), ("seed", rng.next().to_string())])); } }
         for _ in 0..(if th { 3000 } else { 300 }) {
             v.push(case(&[("op", (*rng.pick(&["enc", "dec"])).into()), ("cs", rng.range(1, 3).to_string()), ("lens", "rand".into()), ("multi", "1".into()), ("seed", rng.next().to_string())]));
         }
@@ -59,6 +61,22 @@ impl Prop for C10 {
         let mut o = Outcome::default();
         let mut rng = Rng::new(get(c, "seed").parse().unwrap_or(0));
         let op = get(c, "op");
+        if op == "cli-devfull" {
+            // the real binary writing to a device that fails every write: the failure must surface (exit 1, Error: line)
+            use crate::cli::*;
+            let fx = fixtures(); let cmd = get(c, "cmd"); let plen = getn(c, "plen");
+            let plain = crate::gen::payload(rng.next(), plen); let pw = "pass123";
+            let input: Vec<u8> = match cmd { "decrypt" => imp::key_encrypt(&fx.alice.sk, &fx.alice.pk, &fx.bob.pk, None, None, &plain, &imp::NOSCRIPT).out, "pass-decrypt" => imp::pass_encrypt(pw.as_bytes(), &rng.bytes(32), &plain, &imp::NOSCRIPT).out, _ => plain.clone() };
+            let world = World { files: vec![("in.bin".into(), input), ("kr.txt".into(), keyring(&[(&fx.alice, true), (&fx.bob, true)]).into_bytes())],
+                env: vec![("KESTREL_PASSWORD".into(), match cmd { "decrypt" => fx.bob.pw.into(), "encrypt" => fx.alice.pw.into(), _ => pw.into() })], stdin: b"devfull\n".to_vec() };
+            let args: Vec<String> = match cmd { "encrypt" => sv(&["encrypt", "in.bin", "-t", "bob", "-f", "alice", "-o", "/dev/full", "-k", "kr.txt", "--env-pass"]), "decrypt" => sv(&["decrypt", "in.bin", "-t", "bob", "-o", "/dev/full", "-k", "kr.txt", "--env-pass"]),
+                "pass-encrypt" => sv(&["password", "encrypt", "in.bin", "-o", "/dev/full", "--env-pass"]), "pass-decrypt" => sv(&["password", "decrypt", "in.bin", "-o", "/dev/full", "--env-pass"]), _ => sv(&["key", "generate", "-o", "/dev/full", "--env-pass"]) };
+            let obs = run_kestrel(&world, &args);
+            o.impl_obs = format!("exit={:?} stderr={:?}", obs.exit, obs.stderr.lines().last().unwrap_or("").chars().take(80).collect::<String>()); o.model_obs = "a failing write is an error".into();
+            o.tags.push(format!("cli /dev/full {} -> exit {:?}", cmd, obs.exit)); o.nontrivial = Some(format!("devfull/{}/{}", cmd, plen));
+            if obs.exit != Some(1) || !obs.error_line() { o.oracle_fail = Some(("write-failure-surfaces".into(), format!("kestrel {}: every write to the output fails (ENOSPC) but the tool exited {:?} ({:?})", args.join(" "), obs.exit, obs.stderr.trim().chars().take(120).collect::<String>()))); }
+            return o;
+        }
         // ---- set up the operation as closures over scripts ----
         let hook = op == "enc" || op == "dec";
         let cs = getn(c, "cs").max(1);
